@@ -92,7 +92,9 @@ fn inv(op: &Op, _ctx: &dyn Context, operands: &mut dyn CoordinateSet) -> usize {
                 if let Some(t2) = grids_at(grids, &t, use_null_grid) {
                     let d = t - coord + t2;
                     t = t - d;
-                    if d[0].hypot(d[1]) < 1e-12 {
+                    // (1e-12 is for radians. A grid in projected coordinates gives its
+                    // corrections in metres, where that is below the resolution of the coordinates)
+                    if d[0].hypot(d[1]) < 1e-12 * coord[0].hypot(coord[1]).max(1.0) {
                         operands.set_coord(i, &t);
                         successes += 1;
                         continue 'points;
